@@ -1184,6 +1184,53 @@ func (r *Run) oracleC11diff(op *OpDesc, c *Call, twin *Operands, tout, out *Outc
 
 // aliasShape names the aliasing partition of a call, e.g. "R=P0,P1|S0=S1".
 func aliasShape(op *OpDesc, c *Call) string {
+	if op.Multi && len(c.P) > 6 {
+		// long term lists: summarise instead of spelling out the partition
+		var at []string
+		for j, i := range c.P {
+			if i == c.R {
+				if len(at) < 3 {
+					at = append(at, fmt.Sprint(j))
+				}
+			}
+		}
+		dp, ds := map[int]bool{}, map[int]bool{}
+		for _, i := range c.P {
+			dp[i] = true
+		}
+		for _, i := range c.S {
+			ds[i] = true
+		}
+		bucket := "7..16"
+		switch n := len(c.P); {
+		case n > 256:
+			bucket = ">256"
+		case n > 64:
+			bucket = "65..256"
+		case n > 33:
+			bucket = "34..64"
+		case n > 16:
+			bucket = "17..33"
+		}
+		rp := "R-not-in-points"
+		if len(at) > 0 {
+			rp = "R=points[" + strings.Join(at, ",") + "..]"
+			if len(c.P)-1-func() int {
+				last := -1
+				for j, i := range c.P {
+					if i == c.R {
+						last = j
+					}
+				}
+				return last
+			}() < 3 {
+				rp = "R-in-tail"
+			} else {
+				rp = "R-in-points"
+			}
+		}
+		return fmt.Sprintf("n=%s,%s,%d-distinct-points,%d-distinct-scalars", bucket, rp, minInt(len(dp), 9), minInt(len(ds), 9))
+	}
 	type occ struct {
 		name string
 		slot int
@@ -1228,6 +1275,13 @@ func aliasShape(op *OpDesc, c *Call) string {
 		return "distinct"
 	}
 	return strings.Join(parts, "|")
+}
+
+func minInt(a, b int) int {
+	if a < b {
+		return a
+	}
+	return b
 }
 
 // ---- ledger (C19) ----
